@@ -145,6 +145,9 @@ FIT_TYPES = collections.OrderedDict(
 )
 
 
+STRING_MODELS = ["lib-linear", "sympy-lin", "sympy-exp"]
+
+
 def fit_mixes(ft, tier):
     if ft in ("unbinned", "custom"):
         return [[]]
@@ -218,6 +221,12 @@ def fit_specs(tier, v):
                     for ps in ("fix+lim+con-simple-rel", "con-matrix-cov-rel"):
                         for st in ("unfit", "fit"):
                             add(ftype=ft, model=model, cost=default_cost, sources=mix, pstate=ps, state=st, labels=True)
+    # model functions given as library name / SymPy string inside a fit
+    for model in STRING_MODELS:
+        for st in STATES:
+            for labels in (False, True):
+                add(ftype="xy", model=model, cost="chi2", sources=[["y-abs", True]], pstate="none", state=st, labels=labels)
+            add(ftype="xy", model=model, cost="chi2", sources=[["y-abs", True], ["y-rel-model", True]], pstate="fix+lim+con-simple-rel", state=st, labels=False)
     # histogram specials: set_bins data, bin evaluation variants, density switch
     for st in STATES:
         add(ftype="hist", model="normal", cost=None, sources=[], pstate="none", state=st, labels=False, hist_data="set")
@@ -239,6 +248,11 @@ def fit_specs(tier, v):
         add(ftype=ft, model=models[0], cost=dc, sources=mix, pstate="fix", state="fit", labels=False, save="asym")
         for st in ("unfit", "fit"):
             add(ftype=ft, model=models[0], cost=dc, sources=mix, pstate="none", state=st, labels=False, minimizer="scipy")
+    # iterative treatment of parameter-dependent uncertainties chosen at construction
+    for ft, model in (("xy", "lin"), ("xy", "expo"), ("indexed", "idx2"), ("hist", "normal")):
+        for mix in ([["y-abs", True], ["y-rel-model", True]], [["y-rel-model", True]]) + (([["y-abs", True], ["x-abs", True]],) if ft == "xy" else ()):
+            for st in STATES:
+                add(ftype=ft, model=model, cost="chi2", sources=mix, pstate="none", state=st, labels=False, dea="iterative")
     # save_state / load_state
     for ft, (models, costs) in FIT_TYPES.items():
         dc = "chi2" if ft in ("xy", "indexed") else None
@@ -340,7 +354,7 @@ def sig_of(spec):
         return "constraint|%s" % spec["c"]
     if k == "fit":
         extra = ""
-        for key in ("hist_data", "bin_evaluation", "density", "variant", "minimizer", "save", "flow"):
+        for key in ("hist_data", "bin_evaluation", "density", "variant", "minimizer", "dea", "save", "flow"):
             if spec.get(key) is not None:
                 extra += "|%s=%s" % (key, spec[key])
         return "fit|%s|%s|cost=%s|src=%s|par=%s|state=%s|labels=%d%s" % (
